@@ -20,7 +20,8 @@ RULE = ("Base MDP specs with discount rates 0.5 / 0.9 / 1.0 set as instance attr
         "of the derived MDP; options = (policy spec, termination set, max_steps 2..30) run from any state under "
         "owned random streams; semi-MDPs with 1-2 string-named options, 1-30 simulations, seeds, primitive actions. "
         "Non-trivial: base discount < 1 with >=1 non-overridden component (augment / sub-goal), or an option taking "
-        ">=2 steps; distinct by spec hash.")
+        ">=2 steps; distinct by spec hash."
+        ' Also: same-named options, a re-query after changing the simulation count, a planning option named like a primitive action.')
 ASSUMPTIONS = ["an AlgorithmException from Option.run_on is accepted iff the reference finds a positive-probability path "
                "that avoids the termination set for max_steps-1 transitions", "SemiMarkovDecisionProcess.actions() is "
                "not part of the statement and is not exercised"]
